@@ -8,10 +8,10 @@ RENDERS = [("plain", "plain"), ("hostile", "plain"), ("crlf", "subdir"), ("nonl"
 
 
 def consts(files=("f",), sessions=("S1", "S2"), uid=5, lines=4, commits=2, steps=5, alphabet=(), init="base",
-           dev=ASBUILT):
+           dev=ASBUILT, base=2):
     return {"File": list(files), "Session": list(sessions), "MaxUid": uid, "MaxLines": lines, "MaxCommit": commits,
             "MaxSteps": steps, "Mode": "gen", "Alphabet": list(alphabet), "InitKind": init, "F0": files[0],
-            "Dev": list(dev)}
+            "BaseLines": base, "Dev": list(dev)}
 
 
 G_ALL = ["G_C01_Exact", "G_C02_Carried", "G_C01_OnlyAdded", "G_C03_Notes", "G_C03_Blame", "G_C05_WellFormed"]
